@@ -36,7 +36,14 @@ Enc(ns) ==
   \cup {<<FnP(UnionT(<<U(Lits(h[1])), Ref("N3", <<>>)>>)), <<Alias("N3", U(Lits(h[2])))>>>> : h \in Halves(ns)}
   \cup {<<Ref("E4", <<>>), <<Interface("E4", <<>>, <<CallSig(U(Lits(h[1])))>>), Interface("E4", <<>>, <<CallSig(U(Lits(h[2])))>>)>>>> : h \in Halves(ns)}
 
+ShadowedE(d) ==       \* the same name, declaring the single event "zz" in the same style
+  IF d.k = "interface" THEN Interface(d.name, <<>>, <<CallSig(L("zz"))>>)
+  ELSE IF d.type.k = "fn" THEN Alias(d.name, FnP(L("zz")))
+  ELSE IF d.type.k = "typelit" THEN Alias(d.name, TypeLit(<<CallSig(L("zz"))>>))
+  ELSE Alias(d.name, L("zz"))                                   \* a literal-union alias
 Raw == {[type |-> e[1], decls |-> e[2], place |-> p, annotated |-> TRUE] : e \in UNION {Enc(ns) : ns \in NameSets}, p \in Placements}
+       \cup {[type |-> e[1], decls |-> e[2], place |-> "dual_scope", annotated |-> TRUE] :
+               e \in {x \in UNION {Enc(ns) : ns \in NameSets} : Len(x[2]) = 1}}
        \cup {[type |-> Kw("any"), decls |-> <<>>, place |-> "before", annotated |-> FALSE]}
 
 CaseSeq ==
@@ -44,6 +51,7 @@ CaseSeq ==
   [i \in 1..Len(raw) |->
      [case |-> "C19-" \o ToString(i), prop |-> "C19", lang |-> "tsx", tscase |-> "emits",
       type |-> raw[i].type, decls |-> raw[i].decls, place |-> raw[i].place, annotated |-> raw[i].annotated,
+      shadow |-> IF raw[i].place = "dual_scope" THEN <<ShadowedE(raw[i].decls[1])>> ELSE <<>>,
       opts |-> [transformOn |-> FALSE, optimize |-> FALSE, mergeProps |-> TRUE, enableObjectSlots |-> TRUE, resolveType |-> TRUE,
                 patterns |-> <<>>, pragma |-> ""]]]
 
